@@ -125,7 +125,7 @@ async def search_inverters() -> bytes:
     logger.debug("Searching inverters by broadcast to port 48899")
     command = ProtocolCommand("WIFIKIT-214028-READ".encode("utf-8"), lambda r: True)
     try:
-        result = await command.execute(UdpInverterProtocol("255.255.255.255", 48899, 1, 0))
+        result = await command.execute(UdpInverterProtocol("255.255.255.255", 48899, 0, 1, 0))
         if result is not None:
             return result.response_data()
         raise InverterError("No response received to broadcast request.")
